@@ -484,15 +484,18 @@ func (c *Client) Addr() string {
 // Close terminates the client's connection and releases any associated resources.
 // It returns an error if the connection could not be closed.
 func (c *Client) Close() error {
+	vp("cx.close", c)
 	return c.conn.Close()
 }
 
 func (c *Client) reconnect(ctx context.Context) error {
 	// fmt.Println("Reconnecting")
+	vp("rt.reconnect", c)
 	if c.conn != nil {
 		_ = c.conn.Close()
 		c.conn = nil
 	}
+	vp("rt.dial", c)
 	stream, err := c.dialer(ctx)
 	if err != nil {
 		return err
@@ -507,6 +510,8 @@ func (c *Client) reconnect(ctx context.Context) error {
 // io.EOF and io.ErrClosedPipe, attempting to reconnect and resend the request up to three times before failing.
 // Returns the response message on success, or an error if the operation ultimately fails.
 func (c *Client) doRountrip(ctx context.Context, msg *kmip.RequestMessage) (*kmip.ResponseMessage, error) {
+	defer vp("rt.exit", c)
+	vp("rt.lock", c)
 	c.lock.Lock()
 	defer c.lock.Unlock()
 	if c.conn == nil {
